@@ -412,7 +412,8 @@ def run_case(w, case):
         if rq.method != b'GET' or not rq.target.endswith(path.encode()):
             raise HarnessError('unexpected upstream request %r' % rq.start)
         cls1, violation = check_response(t1, case, case['ver'], [body1], sent_body, upstream_complete)
-    tr.append(summary(t1))
+    # (slow client + truncated origin: how much got through before the teardown depends on kernel socket-buffer timing)
+    tr.append(summary(t1, content=not (case.get('drain') and not upstream_complete)))
     outcome = cls1
     if case.get('drain'):
         # evidence that the body really had to wait inside Squid: less was deliverable at the standstill than in the end
@@ -439,14 +440,14 @@ def run_case(w, case):
             'transcript': '\n'.join(tr), 'relayed': cls1.split(':')[0] not in ('error-page', 'closed-without-response', 'no-response')}
 
 
-def summary(t):
+def summary(t, content=True):
     """Deterministic digest of a transaction (volatile header values masked, body by decoded content)."""
     m = httpref.parse_response(t.client_bytes, 'GET', eof=t.eof)
     end = t.client_bytes.find(b'\r\n\r\n')
     head = br.mask_head(t.client_bytes[:end if end >= 0 else 0])
     oh = br.mask_head(t.origin_raw)
-    return 'O[%d]:%s\nC:%s\nbody=%d:%s framing=%s complete=%s eof=%s err=%s' % (
-        len(t.origin_reqs), oh, head, len(m.body), br.sha(m.body), m.framing, m.complete, t.eof, m.error)
+    return 'O[%d]:%s\nC:%s\nbody=%s framing=%s complete=%s eof=%s err=%s' % (
+        len(t.origin_reqs), oh, head, ('%d:%s' % (len(m.body), br.sha(m.body))) if content else 'partial', m.framing, m.complete, t.eof, m.error)
 
 
 def make_world(ctx, shard):
